@@ -24,7 +24,8 @@ def worlds(tier, rng, real, classes, attrs=False, nmax=6):
             a = ""
             if attrs and rng.random() < 0.85:
                 a = " a=0:%d" % rng.choice([0, 1, 2, 3])
-            lines.append("vertex %s%s" % (c, a))
+            x = " x=%d" % rng.choice([7, 7, 8]) if rng.random() < 0.25 else ""     # caller-supplied (possibly equal) uids
+            lines.append("vertex %s%s%s" % (c, a, x))
         for _ in range(rng.randint(0, 9)):
             k = rng.choice(classes)
             a = rng.randrange(nv)
@@ -113,7 +114,7 @@ class C14(Check):
 
     def batches(self, tier, rng, real):
         for lines, unis in worlds(tier, rng, real, ["D", "U", "DD", "UU"] + (["X"] if rng.random() < 0.15 else []), attrs=True, nmax=4):
-            qs = ["puml V%d %d" % (u, o) for u in unis for o in (0, 1, 2, 3)]
+            qs = ["puml V%d %d" % (u, o) for u in unis for o in (0, 1, 2, 3, 4)]
             yield run(real, lines + qs)
 
     def search(self, tier, rng, real, v):
@@ -134,13 +135,18 @@ class C14(Check):
         members = u.vertices
 
         def title(v):
-            if o == 2:
+            if o == 2 or (o == 4 and isinstance(v, poolmod.SV)):
                 from adapter import Real
                 return "T%d" % Real.valclass(getattr(v, "a0"))
             return "id%d" % real.vname(v)
-        if o == 2 and len({title(v) for v in members}) != len(members):
+        try:
+            everyone = list(members) + [e for v in members for l in v.links for e in l.vertices if e is not None]
+            titles = {id(v): title(v) for v in everyone}
+        except AttributeError:
+            return None      # an attribute-based title of a vertex without the attribute: raising input
+        if len(set(titles.values())) != len(titles):
             return None      # titles not injective: outside the statement's reading
-        vtype = lambda v: "class" if (o == 1 and isinstance(v, poolmod.SV)) else "object"  # noqa: E731
+        vtype = lambda v: "class" if (o in (1, 4) and isinstance(v, poolmod.SV)) else "object"  # noqa: E731
         want_decls = ["%s %s <<%s>>" % (vtype(v), title(v), type(v).__name__) for v in members]
         if decls != want_decls:
             return "%s: declarations %r, members give %r" % (line, decls, want_decls)
